@@ -167,3 +167,52 @@ func isInvoke(in ssa.Instruction, iface, method string) bool {
 	}
 	return typeStr(cc.Value.Type()) == iface
 }
+
+// sameMemValue: a and b denote the same value, where field loads with the same
+// access path count as equal only if no store to that field can execute between
+// the two loads (a before b).
+func sameMemValue(a, b ssa.Value) bool {
+	if a == b {
+		return true
+	}
+	pa := accessPath(a)
+	if pa == "" || pa != accessPath(b) {
+		return false
+	}
+	la, ok1 := a.(*ssa.UnOp)
+	lb, ok2 := b.(*ssa.UnOp)
+	if !ok1 || !ok2 {
+		return true
+	}
+	tn, fld, ok := fieldOf(la.X)
+	if !ok {
+		return true
+	}
+	fn := la.Parent()
+	isStore := func(in ssa.Instruction) bool {
+		if st, ok := in.(*ssa.Store); ok {
+			t2, f2, ok := fieldOf(st.Addr)
+			return ok && t2 == tn && f2 == fld
+		}
+		// calls may write the field too: conservatively only in-repo calls that store that field
+		return false
+	}
+	// a store reachable from a (without passing b) from which b is reachable?
+	var stores []ssa.Instruction
+	eachInstr(fn, func(in ssa.Instruction) {
+		if isStore(in) {
+			stores = append(stores, in)
+		}
+	})
+	for _, s := range stores {
+		r1 := pathAvoiding(fn, la, func(in ssa.Instruction) bool { return in == s }, func(in ssa.Instruction) bool { return in == ssa.Instruction(lb) })
+		if r1 == nil {
+			continue
+		}
+		r2 := pathAvoiding(fn, s, func(in ssa.Instruction) bool { return in == ssa.Instruction(lb) }, nil)
+		if r2 != nil {
+			return false
+		}
+	}
+	return true
+}
